@@ -518,12 +518,13 @@ IterNames(ps) == {ps[i].name : i \in {k \in 1..Len(ps) : ps[k].val.t \in {"List"
 U(v)     == [v |-> v, tot |-> Num("PyInt", 0, 1)]
 UR(v, t) == [v |-> v, tot |-> t]
 SumAlpha == <<U(Num("PyInt", 3, 1)), U(Num("PyFloat", 1, 2)), U(Num("NpInt32", -2, 1)), U(Num("NpFloat32", 3, 2)),
-              U(Num("NpFloat64", 1, 4)), U(Num("NpInt64", 5, 1))>>
+              U(Num("NpFloat64", 1, 4)), U(Num("NpInt64", 5, 1)), U(Num("PyFloat", 0, 1)), U(Num("PyInt", 0, 1))>>
 RatioAlpha == <<UR(Num("PyInt", 1, 1), Num("PyInt", 4, 1)), UR(Num("PyInt", 1, 1), Num("PyInt", 3, 1)),
                 UR(Num("NpInt64", 3, 1), Num("NpInt64", 8, 1)), UR(Num("NpFloat32", 3, 2), Num("PyInt", 2, 1)),
                 UR(Num("PyInt", 0, 1), Num("NpInt32", 5, 1)), UR(Num("PyFloat", 1, 2), Num("PyFloat", 5, 2))>>
 MiscAlpha == <<U(Num("PyInt", 3, 1)), U(Str("some string")), U(SetV({Num("PyInt", 1, 1), Num("PyFloat", 5, 2)})),
-               U(List(<<Num("NpFloat32", 3, 2), Str("x")>>)), U(Num("NpFloat32", 3, 2)), U(Num("PyFloat", 2, 1))>>
+               U(List(<<Num("NpFloat32", 3, 2), Str("x")>>)), U(Num("NpFloat32", 3, 2)), U(Num("PyFloat", 2, 1)),
+               U(Str("")), U(NoneV), U(List(<<>>)), U(Num("PyInt", 0, 1))>>
 ChoiceAlpha == <<U(Num("PyInt", 2, 1)), U(Num("PyInt", 0, 1)), U(Num("NpInt64", 1, 1)), U(Num("NpInt32", 2, 1))>>
 NarrowAlpha == <<U(Num("NpInt8", 7, 1)), U(Num("NpUInt16", 7, 1)), U(Num("NpFloat16", 3, 2))>>
 AlphaOf(ty) == CASE ty = SUMT -> SumAlpha [] ty = RATIOT -> RatioAlpha [] ty = MISCT -> MiscAlpha [] ty = CHOICET -> ChoiceAlpha
@@ -549,6 +550,14 @@ ResultPool ==
   \o Concat([a \in 1..2 |-> [h \in 1..Len(NarrowAlpha) |-> MkR("res", SUMT, a = 2, <<NarrowAlpha[h]>>)]])
 
 \* ---- SimulationResults ----
+FalsyResSet ==
+  << [name |-> "", rs |-> <<MkR("", SUMT, FALSE, <<U(Num("PyInt", 0, 1))>>)>>],
+     [name |-> "zero", rs |-> <<MkR("zero", SUMT, TRUE, <<U(Num("PyFloat", 0, 1)), U(Num("PyInt", 0, 1))>>)>>],
+     [name |-> "r0", rs |-> <<MkR("r0", RATIOT, TRUE, <<UR(Num("PyInt", 0, 1), Num("PyInt", 4, 1))>>), MkR("r0", RATIOT, TRUE, <<>>)>>],
+     [name |-> "m", rs |-> <<MkR("m", MISCT, TRUE, <<U(Str("")), U(List(<<>>)), U(Num("PyInt", 0, 1))>>)>>],
+     [name |-> "mset", rs |-> <<MkR("mset", MISCT, FALSE, <<U(SetV({}))>>)>>],
+     [name |-> "none", rs |-> <<MkR("none", MISCT, FALSE, <<U(NoneV)>>)>>],
+     [name |-> "c", rs |-> <<MkR("c", CHOICET, TRUE, <<U(Num("PyInt", 0, 1))>>), MkR("c", CHOICET, FALSE, <<>>)>>] >>
 ResSets ==
   << << [name |-> "ber", rs |-> <<MkR("ber", RATIOT, FALSE, <<RatioAlpha[1]>>), MkR("ber", RATIOT, FALSE, <<RatioAlpha[3], RatioAlpha[1]>>)>>],
         [name |-> "sum", rs |-> <<MkR("sum", SUMT, TRUE, <<SumAlpha[1], SumAlpha[2]>>)>>] >>,
@@ -558,9 +567,14 @@ ResSets ==
      << >>,
      << [name |-> "s32", rs |-> <<MkR("s32", SUMT, TRUE, <<SumAlpha[4]>>)>>],
         [name |-> "ratio0", rs |-> <<MkR("ratio0", RATIOT, FALSE, <<>>)>>],
-        [name |-> "n8", rs |-> <<MkR("n8", SUMT, FALSE, <<NarrowAlpha[1]>>), MkR("n8", SUMT, FALSE, <<NarrowAlpha[3]>>)>>] >> >>
-RunnedPool  == <<NoneV, Num("PyInt", 7, 1), List(<<Num("PyInt", 3, 1), Num("PyInt", 4, 1)>>)>>
-CurrentPool == <<-1, 5>>
+        [name |-> "n8", rs |-> <<MkR("n8", SUMT, FALSE, <<NarrowAlpha[1]>>), MkR("n8", SUMT, FALSE, <<NarrowAlpha[3]>>)>>] >>,
+     FalsyResSet >>
+\* every scalar field takes its FALSY-BUT-VALID values too (0, 0.0, "", None, empty containers): a decoder that
+\* tests a field for truth instead of presence loses exactly those
+RunnedPool  == <<NoneV, Num("PyInt", 7, 1), List(<<Num("PyInt", 3, 1), Num("PyInt", 4, 1)>>),
+                 Num("PyInt", 0, 1), List(<<Num("PyInt", 0, 1), Num("PyInt", 0, 1)>>), List(<<>>)>>
+CurrentPool == <<-1, 0, 1, 500>>
+OrigPool    == <<NoneV, Str(""), Str("x_{num}.json")>>      \* original_filename of an object that was never saved / set by hand
 Templates == << <<Lit("res_"), Par("num"), Lit("_"), Par("str")>>,
                 <<Lit("r("), Par("arr"), Lit(")_"), Par("num"), Lit("_x")>>,
                 <<Lit("plain")>> >>
@@ -625,12 +639,25 @@ ResultCase ==
                      decRaises |-> ~Raises(t) /\ DecRRaises(t, Dev), back |-> b,
                      tree2 |-> IF ok THEN EncR(b, Dev) ELSE t, rel |-> RelR(st)]
 
-\* the quick tier keeps a third of the product plus two slices that hold every special case
+\* the quick tier keeps one eleventh of the product (every value of every pool, and every PAIR of values of the
+\* scalar-field pools with every extension, occurs: checked by QuickPairsCovered) plus two slices of special cases
 QuickKeep(p, r, u, cu, tp, e) ==
   IF Thorough THEN TRUE
-  ELSE IF (p + r + u + cu + tp + e) % 3 = 0 THEN TRUE
-  ELSE IF r = 4 /\ tp = 1 /\ e = 1 THEN TRUE
-  ELSE p = 3 /\ u = 1 /\ cu = 2
+  ELSE IF (p + 2 * r + 3 * u + 5 * cu + 7 * tp + e) % 11 = 0 THEN TRUE
+  ELSE IF r >= 4 /\ tp = 1 /\ e = 1 /\ p = 1 THEN TRUE
+  ELSE p = 3 /\ u = 1 /\ cu = 2 /\ tp = 1
+\* the selection is not accidental: each current_rep value and each runned_reps value meets each extension
+QuickPairsCovered ==
+  /\ \A cu \in 1..Len(CurrentPool) : \A e \in 1..Len(Exts) :
+        \E p \in 1..Len(SParams) : \E r \in 1..Len(ResSets) : \E u \in 1..Len(RunnedPool) : \E tp \in {1, 3} :
+           QuickKeep(p, r, u, cu, tp, e)
+  /\ \A u \in 1..Len(RunnedPool) : \A e \in 1..Len(Exts) :
+        \E p \in 1..Len(SParams) : \E r \in 1..Len(ResSets) : \E cu \in 1..Len(CurrentPool) : \E tp \in {1, 3} :
+           QuickKeep(p, r, u, cu, tp, e)
+  /\ \A r \in 1..Len(ResSets) : \A e \in 1..Len(Exts) :
+        \E p \in 1..Len(SParams) : \E u \in 1..Len(RunnedPool) : \E cu \in 1..Len(CurrentPool) : \E tp \in {1, 3} :
+           QuickKeep(p, r, u, cu, tp, e)
+ASSUME QuickPairsCovered
 StatesOf(rset) == [i \in 1..Len(rset) |-> [name |-> rset[i].name, rs |-> [k \in 1..Len(rset[i].rs) |-> RState(rset[i].rs[k])]]]
 ResultsCase ==
   /\ c.kind = "init" /\ Family = "results"
@@ -651,6 +678,59 @@ ResultsCase ==
                      tree |-> t, encRaises |-> Raises(t), decRaises |-> ~Raises(t) /\ DecSRaises(t, Dev), back |-> b,
                      tree2 |-> IF ok THEN EncS(b, Dev) ELSE t, rel |-> RelS(S), eqdef |-> EqDefinedP(SParams[p])]
 
+\* SimulationResults as a STRING only (never saved: original_filename None / "" / set by hand): the full product of
+\* the scalar-field pools, in every tier
+FieldParams == <<SParams[1], SParams[3]>>
+FieldResSets == <<FalsyResSet, <<>>, ResSets[1]>>
+FieldsCase ==
+  /\ c.kind = "init" /\ Family = "fields"
+  /\ \E p \in 1..Len(FieldParams) : \E r \in 1..Len(FieldResSets) : \E u \in 1..Len(RunnedPool) :
+     \E cu \in 1..Len(CurrentPool) : \E o \in 1..Len(OrigPool) :
+        /\ Pick(p + r + u + cu + o)
+        /\ LET S  == [params |-> FieldParams[p], runned |-> RunnedPool[u], current |-> CurrentPool[cu],
+                      orig |-> OrigPool[o], res |-> StatesOf(FieldResSets[r])]
+               t  == EncS(S, Dev)
+               ok == ~Raises(t) /\ ~DecSRaises(t, Dev)
+               b  == IF ok THEN DecS(t, Dev) ELSE S
+           IN  c' = [kind |-> "fields", id |-> <<p, r, u, cu, o>>, S |-> S, rd |-> FieldResSets[r],
+                     tree |-> t, encRaises |-> Raises(t), decRaises |-> ~Raises(t) /\ DecSRaises(t, Dev), back |-> b,
+                     tree2 |-> IF ok THEN EncS(b, Dev) ELSE t, rel |-> RelS(S), eqdef |-> EqDefinedP(FieldParams[p])]
+
+\* FINE SCALARS (rel): values that differ only far down - tiny magnitudes, adjacent floats, 1e-13-scale
+\* differences, large values differing in the last digits.  value = (n/d) * 10^b10 + k * 2^e2 * 10^e10; inside a
+\* group only k varies, so two members are different numbers iff their k differ (exact, no big arithmetic needed).
+\* Their decimal text has no small exact description, so the specification contributes the enumeration and the
+\* REQUIRED RELATIONS (req), which the harness evaluates on the real names and files:
+\*   NameDeterministic, NamesPairwiseDistinct, EachVariationLoadsBackItsOwn (all members saved through ONE template
+\*   - as separate objects and as the unpacked variations of one array parameter - then every file loaded and
+\*   compared with what was saved into it).
+\* Premise checked by the harness (machinery failure otherwise): the members are different machine numbers.
+FG(t, n, d, b10, e2, e10, ks) == [t |-> t, n |-> n, d |-> d, b10 |-> b10, e2 |-> e2, e10 |-> e10, ks |-> ks]
+FineGroups ==
+  << FG("PyFloat", 0, 1, 0, 0, -13, <<1, 2, 4, 5>>),          \* 1e-13 2e-13 4e-13 5e-13
+     FG("NpFloat64", 0, 1, 0, 0, -13, <<1, 2, 4>>),
+     FG("PyFloat", 0, 1, 0, 0, -20, <<1, 3, 10>>),
+     FG("PyFloat", 0, 1, 0, 0, -300, <<1, 2>>),
+     FG("PyFloat", 1, 2, 0, -53, 0, <<0, 1, 2, 256>>),         \* 0.5, the next two doubles, 0.5 + 2^-45
+     FG("NpFloat64", 1, 2, 0, -53, 0, <<0, 1, 256>>),
+     FG("PyFloat", -1, 2, 0, -53, 0, <<0, 1, 2>>),
+     FG("PyFloat", 3, 10, 0, -54, 0, <<0, 1, 2>>),             \* 0.3, 0.30000000000000004, ...
+     FG("PyFloat", 1, 1, 0, 0, -13, <<0, 1, 2, 5, 10>>),       \* 1, 1 + 1e-13, 1 + 2e-13, ...
+     FG("PyFloat", 1, 1, 15, 0, 0, <<0, 1, 2>>),               \* 1e15, 1e15 + 1, 1e15 + 2
+     FG("PyFloat", 123456789, 1, 3, -10, 0, <<0, 1, 3>>),      \* 123456789000 + k/1024
+     FG("NpFloat32", 1, 2, 0, -24, 0, <<0, 1, 2>>),            \* adjacent float32
+     FG("NpFloat32", 0, 1, 0, 0, -13, <<1, 2, 4>>),
+     FG("NpFloat16", 1, 2, 0, -11, 0, <<0, 1>>),               \* adjacent float16
+     FG("PyInt", 1, 1, 15, 0, 0, <<0, 1, 2, 10>>),             \* 10^15 + k
+     FG("NpInt64", 9, 1, 17, 0, 0, <<0, 1, 7>>) >>             \* 9*10^17 + k
+FineTemplate == <<Lit("fine_"), Par("num"), Lit("_end")>>
+FineCase ==
+  /\ c.kind = "init" /\ Family = "fname"
+  /\ \E g \in 1..Len(FineGroups) :
+        /\ Pick(g)
+        /\ c' = [kind |-> "fine", id |-> <<g>>, group |-> FineGroups[g], template |-> TemplateText(FineTemplate),
+                 req |-> {"NameDeterministic", "NamesPairwiseDistinct", "EachVariationLoadsBackItsOwn"}]
+
 FileNameCase ==
   /\ c.kind = "init" /\ Family = "fname"
   /\ \E i \in 1..Len(FnPool) : \E k \in 1..Len(FnPool) :
@@ -663,13 +743,13 @@ FileNameCase ==
                      n1 |-> FileName(FnTemplate, P1), n2 |-> FileName(FnTemplate, P2)]
 
 Init == c = [kind |-> "init"]
-Next == ValueCase \/ ParamsCase \/ ResultCase \/ ResultsCase \/ FileNameCase
+Next == ValueCase \/ ParamsCase \/ ResultCase \/ ResultsCase \/ FieldsCase \/ FileNameCase \/ FineCase
 Emit == EmitCase(c')
 
 (* ==================================== the laws ================================================== *)
 IsP == c.kind \in {"value", "params"}
 IsR == c.kind = "result"
-IsS == c.kind = "results"
+IsS == c.kind \in {"results", "fields"}
 Coded == IsP \/ IsR \/ IsS
 
 EncodeTotal == Coded => ~c.encRaises
@@ -712,5 +792,7 @@ FileNameInjective ==
   c.kind = "fname" => ((Kind(c.v1) = "Str") = (Kind(c.v2) = "Str") /\ ~LibEq(c.v1, c.v2) => c.n1 # c.n2)
 FileNameFunctional ==
   c.kind = "fname" => (Faithful(c.v1, c.v2) => c.n1 = c.n2)
-TypeOK == c.kind \in {"init", "value", "params", "result", "results", "fname"}
+TypeOK == c.kind \in {"init", "value", "params", "result", "results", "fields", "fname", "fine"}
+\* members of a fine group are pairwise different numbers (k strictly increasing on one scale)
+FinePoolOk == c.kind = "fine" => \A i \in 1..Len(c.group.ks) - 1 : c.group.ks[i] < c.group.ks[i + 1]
 =============================================================================
